@@ -297,8 +297,23 @@ func genC01(c *Ctx) {
 			// an earlier, refused execution of a partial that shares helpers with the template must leave no trace
 			hb2 := newHistBuilder()
 			hb2.add(Step{Op: "new", H: 0, Name: "root"})
-			partial := pick(c, []string{"{{template \"h0\" .}}<div class=\"", "{{template \"h1\" .}}{{template \"h0\" .}}<a href=\"/x", "<p>{{template \"h0\" .}}</p><!-- ", "{{template \"h2\" .}}<textarea>", "<b>{{template \"h0\" .}}</b><script>"})
-			if hb2.add(Step{Op: "parse", H: 0, Text: text + "{{define \"zpartial\"}}" + partial + "{{end}}"}) != "" {
+			pp := pick(c, [][2]string{
+				{"{{template \"h0\" .}}<div class=\"", "{{template \"h0\" .}}"},
+				{"{{template \"h1\" .}}{{template \"h0\" .}}<a href=\"/x", "{{template \"h0\" .}}{{template \"h1\" .}}"},
+				{"<p>{{template \"h0\" .}}</p><!-- ", "<p>{{template \"h0\" .}}</p>"},
+				{"{{template \"h2\" .}}<textarea>", "{{template \"h2\" .}}"},
+				{"<b>{{template \"h0\" .}}</b><script>", "<b>{{template \"h0\" .}}</b>"},
+				{"<p title=\"{{template \"h0\" .}}\"><style>", "<p title=\"{{template \"h0\" .}}\">x</p>"},
+			})
+			partial := pp[0]
+			// the template itself calls the same helper in the same context as the refused partial, and the helper prints data
+			text2 := pp[1] + text
+			for _, hn := range []string{"h0", "h1", "h2"} {
+				if !strings.Contains(text2, "{{define \""+hn+"\"}}") {
+					text2 += "{{define \"" + hn + "\"}}" + pick(c, []string{"{{.X}}", "<i>{{.Y}}</i>", "{{.X}}{{.Z}}"}) + "{{end}}"
+				}
+			}
+			if hb2.add(Step{Op: "parse", H: 0, Text: text2 + "{{define \"zpartial\"}}" + partial + "{{end}}"}) != "" {
 				hb2.add(Step{Op: "exect", H: 0, Name: "zpartial", Data: data})
 				hb = hb2
 				cls = "after-refused-partial-"
